@@ -25,7 +25,8 @@ RULE = ("agent arm: 0-6 initial agents, 1-3 mutator systems at priorities above/
         "records per collection, simulated disk with random buffer size and pre-existing content, a crash inside a flush "
         "in ~25% of runs, real temporary files in ~10%; non-trivial = population changed inside >=1 timestep before the "
         "collector's turn (agent arm) / >=2 complete flush cycles with write_count>=1 and >=1 empty collection (file "
-        "arm); distinct = abstract schedule shape")
+        "arm); distinct = abstract schedule shape"
+        "; also: composite function that keeps and updates ONE dict, empty-string records, environment object replaced between timesteps, systems removed next to the collector, stress runs with large write_count; rare switch for known finding F7")
 COMPONENTS = {"real": ["ECAgent.Collectors.AgentCollector.collect", "FileCollector.execute/write_records", "Collector",
                        "ECAgent.Core scheduler and Environment", "builtins.open + OS (real-file runs only)"],
               "stub": ["open() as seen by ECAgent.Collectors -> simkit.simdisk.SimDisk (durable at flush/close/buffer "
